@@ -114,7 +114,7 @@ theorem orderedKids_prettyKids (pc : PStack) (gap : Str) (tail : List Tree)
 
 /-! ### No two neighbouring text nodes -/
 
-theorem noAdjText_cons_notText {k : Tree} {rest : List Tree} (hk : k.value.isText = false)
+theorem si_noAdjText_cons_notText {k : Tree} {rest : List Tree} (hk : k.value.isText = false)
     (h : noAdjText rest = true) : noAdjText (k :: rest) = true := by
   cases rest with
   | nil => rfl
@@ -134,7 +134,7 @@ theorem noAdjText_prettyKids_granting (pc : PStack) (gap e : Str) : ∀ (ks : Li
   | k :: ks, h => by
     have ih := noAdjText_prettyKids_granting pc gap e ks (fun k' hk' => h k' (by simp [hk']))
     have hk : (prettyNode sup pc k).value.isText = false := by rw [prettyNode_value]; exact h k (by simp)
-    have h1 := noAdjText_cons_notText hk ih
+    have h1 := si_noAdjText_cons_notText hk ih
     simp only [prettyNode.prettyKids, List.append_assoc, List.cons_append]
     split
     · rcases wsNode_cases gap with hw | hw <;> rw [hw]
